@@ -250,10 +250,24 @@ func buildHostileRoot(env *Env, root string) (*hostileRoot, error) {
 	h.files = append(h.files, "/LOOP/self", "/LOOP/dangling")
 	_ = os.MkdirAll(filepath.Join(root, "EMPTY"), 0o755)
 	h.dirs = append(h.dirs, "/EMPTY", "/")
-	// the game directories first: the round-robin of the virtual-prefix sessions reaches every PARAM.SFO variant early
-	sort.SliceStable(h.dirs, func(i, j int) bool {
-		return strings.HasPrefix(h.dirs[i], "/GAMES/") && !strings.HasPrefix(h.dirs[j], "/GAMES/")
-	})
+	// one name around the limits of a directory record / a path-table entry per directory (the first over-long name ends a scan)
+	for _, n := range []int{111, 112, 127, 128, 129, 150, 200, 221, 222} {
+		mk(fmt.Sprintf("LONGD/f%d/%s", n, strings.Repeat("f", n)), []byte("x"))
+		mk(fmt.Sprintf("LONGD/d%d/%s/in.bin", n, strings.Repeat("d", n)), []byte("y"))
+		h.dirs = append(h.dirs, fmt.Sprintf("/LONGD/f%d", n), fmt.Sprintf("/LONGD/d%d", n))
+	}
+	// these first (always as a plain image), then the game directories: the round-robin of the virtual-prefix sessions reaches
+	// every one of them and every PARAM.SFO variant early
+	rank := func(d string) int {
+		switch {
+		case strings.HasPrefix(d, "/LONGD/"):
+			return 0
+		case strings.HasPrefix(d, "/GAMES/"):
+			return 1
+		}
+		return 2
+	}
+	sort.SliceStable(h.dirs, func(i, j int) bool { return rank(h.dirs[i]) < rank(h.dirs[j]) })
 	return h, nil
 }
 
@@ -309,6 +323,9 @@ func crashSession(env *Env, h *hostileRoot, kind int) []*Req {
 			pre := []string{"/***PS3***", "/***DVD***", "***PS3***", "/***PS3***/.."}[r.Intn(4)]
 			if crashCursor[1] < 2*len(h.dirs) { // first pass: PS3 mode, second pass: plain mode, then anything
 				pre = []string{"/***PS3***", "/***DVD***"}[crashCursor[1]/len(h.dirs)]
+			}
+			if strings.HasPrefix(d, "/LONGD/") { // (the game mode gives up on these before it looks at the names)
+				pre = "/***DVD***"
 			}
 			reqs = append(reqs, nil)
 			reqs = append(reqs, &Req{Op: opOpenFile, Path: pre + d})
